@@ -110,6 +110,13 @@ def corrupt(valid, spec):
                 op['fileComparison'] = 'NOPE'
                 op['type'] = 'build_file'
                 op.setdefault('filename', '/nonexistent/x')
+            elif how == 'badfilename':
+                # a build_file record (preferably one of a caught failure) whose filename is not a string
+                cand = [o for o in ops if isinstance(o, dict) and o.get('type') == 'build_file']
+                raised = [o for o in cand if o.get('raised')]
+                tgt = (raised or cand or [op])[spec['i'] % len(raised or cand or [op])]
+                tgt['type'] = 'build_file'
+                tgt['filename'] = [None, 5, ['x'], {'a': 1}, True][spec['i'] % 5]
             elif how == 'dropargs':
                 op.pop('args', None)
             elif how == 'subops':
@@ -136,7 +143,7 @@ corruption_specs = st.one_of(
     st.builds(lambda i, h: {'kind': 'ops', 'i': i, 'how': h}, st.integers(0, 3),
               st.sampled_from(['droptype', 'badcmp', 'dropargs', 'subops', 'unknowntype'])),
     st.builds(lambda i, h: {'kind': 'ops', 'i': i, 'how': h, 'deep': True}, st.integers(0, 7),
-              st.sampled_from(['droptype', 'badcmp', 'badcmp', 'dropargs', 'subops', 'unknowntype'])),
+              st.sampled_from(['droptype', 'badcmp', 'badcmp', 'dropargs', 'subops', 'unknowntype', 'badfilename', 'badfilename'])),
 )
 
 type_specs = st.sampled_from([
